@@ -49,6 +49,13 @@ def fault_script(rng, nfaults, maxk):
         while len(s) < k:
             s.append("ok")
         s[k - 1] = r
+    if nfaults and rng.random() < 0.3:    # the same call index refused at every destination, kinds mixed
+        k = rng.randint(1, maxk)
+        for d in ("p1", "p2", "p3"):
+            s = out[d]
+            while len(s) < k:
+                s.append("ok")
+            s[k - 1] = "app" if d == "p1" else rng.choice(["app", "rpc"])
     if rng.random() < 0.08:     # a destination that is down from some point on
         d = rng.choice(["p2", "p3"])
         k = rng.randint(1, maxk)
@@ -105,6 +112,30 @@ def r_boundary(rng, cid):
             "limit": {"k": k, "delta": rng.choice([-1, 0, 1])}, "rmin": f[0], "rmax": f[1], "local": False,
             "name": "bd", "script": script(rng, 2 * nb + 4, faulty=rng.random() < 0.3),
             "blocks": [{"kind": "raw", "size": s, "links": []} for s in sizes],
+            "stream": list(range(1, nb + 1)), "root": nb}
+
+
+def r_mixed(rng, cid):
+    """one block refused by EVERY destination, with different kinds of refusal (RPC-level at some,
+    daemon-level at the others): the block reaches no daemon, so the add must not succeed"""
+    nb = rng.randint(1, 6)
+    peers = rng.choice([["p2", "p3"], ["p1", "p2"], ["p3", "p1"], ["p1", "p2", "p3"], ["p3", "p2"]])
+    shard = rng.random() < 0.5
+    k = rng.randint(1, nb + (2 if shard else 0))       # call index at every destination (same block)
+    kinds = {}
+    remote = [d for d in peers if d != "p1"]
+    rpc_at = set(rng.sample(remote, rng.randint(1, len(remote)))) if len(peers) > 1 else set()
+    if len(rpc_at) == len(peers):                      # keep at least one daemon-level refusal
+        rpc_at.discard(rng.choice(sorted(rpc_at)))
+    out = {"p1": [], "p2": [], "p3": []}
+    for d in peers:
+        out[d] = ["ok"] * (k - 1) + ["rpc" if d in rpc_at else "app"]
+    f = rng.choice(FACTORS[:3])
+    return {"id": cid, "mode": "R", "class": "mixed-refusal", "shard": shard,
+            "limit": rng.choice([{"abs": 100000}, {"k": rng.randint(1, nb), "delta": 1}]),
+            "rmin": f[0], "rmax": f[1], "local": False, "name": "mx",
+            "script": {"alloc": [{"ok": True, "peers": peers}], "out": out, "pinres": []},
+            "blocks": [{"kind": "raw", "size": rng.randint(2, 30), "links": []} for _ in range(nb)],
             "stream": list(range(1, nb + 1)), "root": nb}
 
 
@@ -217,6 +248,8 @@ def gen_cases(ctx):
         add(r_random(rng, 0))
     for _ in range(200 if quick else 4000):
         add(r_boundary(rng, 0))
+    for _ in range(150 if quick else 2000):
+        add(r_mixed(rng, 0))
     local = [{"ok": True, "peers": ["p1"]}]
     two = [{"ok": True, "peers": ["p1", "p2"]}]
     add(r_big(0, MAXLINKS, local))                 # exactly MaxLinks links: still a direct shard
@@ -296,7 +329,7 @@ def key_for(rec, pred):
     kind = "shard" if i["shard"] else ("single-local" if i["local"] else "single")
     if rec["mode"] == "C":
         kind += "-cluster"
-    if pred in ("Delivered", "Closed", "Partition", "ContentOK") and swallowed_old_root(rec):
+    if pred in ("Delivered", "Closed", "Partition", "ContentOK", "StoredByAllocation") and swallowed_old_root(rec):
         return "C13:%s:add-error-swallowed:balanced-old-root" % pred
     if pred == "DepthCovers":
         qual = "links>MaxLinks" if shard_links(rec) > i["maxLinks"] else "links<=MaxLinks"
